@@ -88,6 +88,13 @@ Definition step_C11 (c : pcase) (_ : unit) (prev : snapshot) (e : event) (o : li
         if no_slave && some_master then
           (ds_steps_removed (sn_ds sn) =? 0)
           && pd_eqb (ds_parent (sn_ds sn)) (own_parent (ds_default (sn_ds sn)))
+          (* grandmaster take-over: the former parent's time properties (leap, UTC
+             offset, traceability, time source) are not the instance's own; a
+             free-running grandmaster advertises the defaults of IEEE 1588-2019
+             9.3.5 / table 30 (M1, M2) *)
+          && (if existsb (fun s => s =? 9) (sn_states prev)
+              then tp_eqb (ds_tp (sn_ds sn)) (mkTP None 0 false false true 160)
+              else true)
         else true
     | _ => true
     end in
